@@ -77,6 +77,14 @@ func BinInt(op token.Token, x, y *Int) (res *Int, wrapped bool) {
 	tlo, thi := rangeOf(w, signed)
 	switch op {
 	case token.AND:
+		// x & (2^k-1) with x already inside [0, 2^k-1] is x itself (keeps the affine form)
+		for _, p := range [][2]*Int{{x, y}, {y, x}} {
+			if m, isc := p[1].Const(); isc && m >= 0 && m&(m+1) == 0 && p[0].Lo >= 0 && p[0].Hi <= m {
+				r := p[0].clone()
+				r.D = d
+				return r, false
+			}
+		}
 		bits := make([]Bit, w)
 		for i := range bits {
 			bits[i] = bitAnd(x.Bits[i], ybit(y, i))
